@@ -88,3 +88,11 @@ Print Assumptions C18_import_kind_D_restored.
 Example C18_hypotheses_satisfiable :
   wf_expr example_expr = true /\ consistent default_names [L "V"; L "f"] [] example_expr = true.
 Proof. exact example_hypotheses. Qed.
+
+(* tensors with an empty upper or lower index group (Y^{}_{j}, X^{a}_{},
+   d^{}_{q}, v^{}_{}, n_{}) are covered by the theorems above *)
+Example C18_empty_groups_roundtrip :
+  wf_expr empty_group_expr = true /\ consistent default_names [L "f"] [] empty_group_expr = true /\
+  print_model empty_group_expr = "- {Y^{}_{j}} {f^{j}_{j}} + {X^{a_{\alpha}}_{}}^{2} {d^{}_{j}} {v^{}_{}} {n_{}}"%string /\
+  import_model default_names false (print_model empty_group_expr) = Some (forget default_names empty_group_expr).
+Proof. exact empty_groups_roundtrip. Qed.
